@@ -50,6 +50,13 @@ int idn2_to_ascii_8z(const char *input, char **output, int flags)
 const char *idn2_strerror(int rc) { (void) rc; return "idn"; }
 #endif
 
+#ifdef VF_STUB_IP
+/* the address validators have their own write-set queries; here they are uninterpreted verdicts */
+int is_ipaddr(const char *s, const char *e) { (void) s; (void) e; return nondet_bool(); }
+int is_ipv4(const char *s, const char *e) { (void) s; (void) e; return nondet_bool(); }
+int is_ipv6(const char *s, const char *e) { (void) s; (void) e; return nondet_bool(); }
+#endif
+
 void harness(void)
 {
     unsigned char s[VF_N + 2];
@@ -68,6 +75,9 @@ void harness(void)
     int r = is_utf8_domain(&idn, (const char *) s, (const char *) s + n, nondet_bool());
     (void) r;
 #elif defined(VF_EMAIL)
+#ifdef VF_LIT            /* x@[........] skeleton of exactly VF_N bytes: the address-literal path */
+    n = VF_N; s[1] = '@'; s[2] = '['; s[VF_N - 1] = ']';
+#endif
     s[n] = 0;
     eav_result_t *r = VF_EMAIL((const char *) s, n, nondet_bool());
     (void) r;
